@@ -148,9 +148,10 @@ CLAIMED.update({
               "Euclidean => single-peaked and single-crossing (necessary conditions), and an exact decision procedure "
               "(Fourier-Motzkin feasibility proved sound and complete; eucl_decide_correct) for every size. is_one_euclidean compared "
               "with the exact decider up to m=6, n=12; every returned map converted exactly and checked; planted positives beyond.",
-              "PARTIAL on the implementation side: open known finding KF-C19-b (True with a map that does not realise the votes when a "
-              "grey alternative is ranked above a coloured one by the first voter; identified by input sha list; the campaign is "
-              "deterministic, independent of VERIF_SEED). Labels must be 1..m. The LP/CBC call is not modelled.", "C19"),
+              "The implementation's own algorithm (colouring, LP via CBC, placement of unconstrained alternatives) is not mirrored: it is "
+              "tied to the proved decider and checker by a deterministic campaign (constant seed; exact verdict comparison up to m=6, n=12, "
+              "witness check and planted positives up to m=12). Four defects found this way were repaired (5a8bee2, 3211aad, 4ca33bd, "
+              "74e9e2c); no open finding remains. Labels must be 1..m. ", "C19"),
 })
 
 
